@@ -449,7 +449,7 @@ def c18_scripts(rng, tier, schedules):
                 rel["fs_out"] = rng.choice(cands)
         elif kind.startswith("Sinc"):
             rel["L"] = rng.choice([8, 16, 32, 64, 128, 256])
-            rel["F"] = rng.choice([2, 4, 16, 128])
+            rel["F"] = rng.choice([2, 4, 16, 128, 3, 160])
             rel["window"] = rng.choice(gen.WINDOWS)
             rel["r"] = gen.rj(rng.choice(gen.RATIOS))
         else:
@@ -545,7 +545,7 @@ def c05_scripts(rng, tier):
         if fam == "Fast":
             base["degree"] = rng.choice(["Septic", "Quintic", "Cubic", "Linear"])
         else:
-            base.update({"L": rng.choice([8, 16, 64]), "F": rng.choice([2, 4, 16, 128]),
+            base.update({"L": rng.choice([8, 16, 64]), "F": rng.choice([2, 4, 16, 128, 3, 100]),
                          "interp": rng.choice(["Cubic", "Quadratic", "Linear"]), "probe": "linear"})
         insts = []
         for _ in range(rng.randrange(2, 5)):
